@@ -501,6 +501,22 @@ func (r *c6Run) runEntry(c *c6Chain, seq int) {
 		} else {
 			lg.Debug().Str("id", c.id).Msg(msg)
 		}
+	case 10:
+		// Panic(): the event is written, then the call panics; the application recovers and
+		// goes on logging
+		func() {
+			defer func() {
+				if p := recover(); p == nil && !zsim.Dying() {
+					zsim.Fail("C06.count", "Panic().Msg of %s did not panic", c.id)
+				}
+			}()
+			zsim.Probe("panic_level_event")
+			if global {
+				zlog.Panic().Str("id", c.id).Msg(msg)
+			} else {
+				lg.Panic().Str("id", c.id).Msg(msg)
+			}
+		}()
 	}
 }
 
@@ -663,7 +679,7 @@ func (c06World) Run(prop string, ch *zsim.Choices, trace bool) *RunResult {
 				c.ops = genOps(ch, ch.Intn(7), 0, "f")
 				c.fin = ch.Intn(4)
 				if ch.Chance(1, 5) {
-					c.entry = 1 + ch.Intn(9)
+					c.entry = 1 + ch.Intn(10)
 					c.level = zerolog.ErrorLevel // never optional through level flips: decided by the entry point itself
 					if r.flips {
 						c.entry = 0
